@@ -149,6 +149,104 @@ def is_undefined(v):
     return isinstance(v, Undefined)
 
 
+# --------------------------------------------------------------- aliasing
+_MUTABLE = (list, dict, set, Obj)
+
+
+def container_map(roots):
+    """id -> path of every mutable container reachable from the named roots
+    (``[(name, value), ...]``): what a caller still holds after the call."""
+    out = {}
+
+    def walk(v, path, depth):
+        if depth > 8:
+            return
+        if isinstance(v, _MUTABLE):
+            if id(v) in out:
+                return
+            out[id(v)] = path
+        if isinstance(v, (list, tuple)):
+            for i, x in enumerate(v):
+                walk(x, f"{path}[{i}]", depth + 1)
+        elif isinstance(v, dict):
+            for k, x in v.items():
+                walk(x, f"{path}[{k!r}]", depth + 1)
+        elif isinstance(v, Obj):
+            for k, x in vars(v).items():
+                walk(x, f"{path}.{k}", depth + 1)
+
+    for name, v in roots:
+        walk(v, name, 0)
+    return out
+
+
+def alias_signature(result, argmap):
+    """(pairs, fresh): pairs = sorted (result path, argument path) for every
+    mutable container inside ``result`` that IS a container of the arguments
+    (not descended into: everything below is shared as well); fresh = the
+    mutable containers of the result that are not shared with the arguments."""
+    pairs = []
+    fresh = []
+    seen = set()
+
+    def walk(v, path, depth):
+        if depth > 8:
+            return
+        if isinstance(v, _MUTABLE):
+            if id(v) in argmap:
+                pairs.append((path, argmap[id(v)]))
+                return
+            if id(v) in seen:
+                return
+            seen.add(id(v))
+            fresh.append(v)
+        if isinstance(v, (list, tuple)):
+            for i, x in enumerate(v):
+                walk(x, f"{path}[{i}]", depth + 1)
+        elif isinstance(v, dict):
+            for k, x in v.items():
+                walk(x, f"{path}[{k!r}]", depth + 1)
+        elif isinstance(v, Obj):
+            for k, x in vars(v).items():
+                walk(x, f"{path}.{k}", depth + 1)
+
+    walk(result, "", 0)
+    return sorted(pairs), fresh
+
+
+class _Poke:
+    """What the harness writes into a result to see whether the arguments move."""
+
+    def __repr__(self):
+        return "<harness poke>"
+
+
+POKE = _Poke()
+
+
+def poke(containers):
+    """Modify every given (result-owned) container in place."""
+    n = 0
+    for c in containers:
+        try:
+            if isinstance(c, list):
+                c.append(POKE)
+                if len(c) > 1:
+                    c[0] = POKE
+            elif isinstance(c, dict):
+                c["$poke"] = POKE
+            elif isinstance(c, set):
+                c.add("$poke")
+            elif isinstance(c, Obj):
+                c.__dict__["poke"] = POKE
+            else:
+                continue
+            n += 1
+        except Exception:  # noqa: BLE001 - a read-only result is fine
+            pass
+    return n
+
+
 class Sameness:
     """Deep comparison of a real result with an expected value.
 
